@@ -15,7 +15,8 @@ RULE = ('Hypothesis-generated SimNet programs: worlds over {byte-stream, message
         'response futures resolved at once, late or by an operation; delivery pumped or manual with generated chunks; '
         'sender drain blocked for generated stretches; manual publishers may end by failing right after their last '
         'element (everything handed before the failure is owed to the consumer); no cancels or faults; heal phase '
-        'grants credit and runs to quiescence. Plus wide programs: 17-48 requests with multi-fragment payloads all queued '
+        'grants credit and runs to quiescence; in a sixth of the programs the client honours leases that are granted in '
+        'portions of 0-3 requests. Plus wide programs: 17-48 requests with multi-fragment payloads all queued '
         'before the sender runs, so that many partial frames are in flight at once. Oracle (reference model = the program): for every interaction the sequence of payloads '
         'observed at the peer callback equals the sequence handed in, byte for byte, exactly once, nothing foreign '
         '(every byte pattern encodes interaction, direction and index). Non-trivial = >= 2 interactions overlapping in '
@@ -33,6 +34,10 @@ def programs(draw):
     frag = draw(gen.frag_pair())
     msg = draw(st.booleans())
     cfg = {'msg': msg, 'frag': frag, 'rbuf': draw(gen.rbufs()), 'none_empty': draw(st.booleans())}
+    leased = draw(st.integers(0, 5)) == 0
+    if leased:
+        # a lease-honouring client: requests wait for leases that are granted in small portions (the heal phase grants the rest)
+        cfg['lease'] = {'queue': 0}
     n = draw(st.integers(1, 8))
     big = draw(st.integers(0, 9)) == 0
     inter = []
@@ -77,6 +82,8 @@ def programs(draw):
         st.tuples(st.just('deliver'), st.sampled_from(['c', 's']), st.one_of(st.none(), st.integers(1, 200))),
         st.tuples(st.just('regime'), st.sampled_from(['pumped', 'manual'])),
     )
+    if leased:
+        op = st.one_of(op, op, st.tuples(st.just('lease'), st.sampled_from([0, 1, 1, 2, 3]), st.just(100000000)))
     # burst: everything a manual publisher has, and its ending, handed over in one go (no loop iteration in between)
     burst = st.tuples(st.integers(0, 7), st.sampled_from(['resp', 'resp', 'req'])).map(
         lambda t: [('emit', t[0], t[1], 5), ('end', t[0], t[1])])
@@ -164,6 +171,7 @@ def prop(program):
                        'interactions=%d' % len(tr.scn.started), 'multi_fragment=%s' % multi,
                        'read_split_inside_frame=%s' % split, 'overlap=%s' % ov, 'quiescent=%s' % tr.quiet,
                        'many_partial_frames_at_once=%s' % bool(program.get('wide')),
+                       'requests_wait_for_leases=%s' % bool(program['cfg'].get('lease')),
                        'models=' + '+'.join(kinds)]
     return vs
 
